@@ -375,6 +375,18 @@ func (g *gstate) apply(cfg *ipa.IPAConfig, o *gop, e ev, rnd *prg) {
 			if i%5 == 4 {
 				base = banderwagon.Identity
 			}
+			if i%7 == 3 && i < 64 {
+				// boundary elements inside the batches: x/y just below k*r (k = 1..4), canonical y just above (p-1)/2
+				var x, y *big.Int
+				if i%2 == 1 {
+					kr := new(big.Int).Mul(modR, big.NewInt(int64(1+(i/7)%4)))
+					x, y = pointFromRatio(new(big.Int).Sub(kr, big.NewInt(int64(1+i))), -1)
+				} else {
+					half := new(big.Int).Rsh(modP, 1)
+					x, y = pointFromY(new(big.Int).Add(half, big.NewInt(int64(1+i))), 1, false)
+				}
+				base = banderwagon.VerifFromCoords(fpFromBig(x), fpFromBig(y), fpFromBig(big.NewInt(1)))
+			}
 			heap[i] = applyRep(base, []string{"norm", "proj", "flip", "projflip"}[i%4], rnd)
 		}
 		// o.D > 0: structured Z coordinates - their PRODUCT is one although the elements are not normalised
